@@ -43,7 +43,7 @@ type Pop struct {
 	ConfPhys []int    // physical index of each configured entry
 	Files    []*PFile
 	nmarker  int
-	Protect  int // physical directory that Step never removes or populates (-1: none)
+	Protect  int            // physical directory that Step never removes or populates (-1: none)
 	DirFault map[int]string // physical index -> isfile | enotdir | noread | nosearch (C13)
 	Opt      PopOpt
 	Kinds    [][2]string
@@ -69,13 +69,13 @@ type PathPrio struct {
 }
 
 type Resolved struct {
-	Devices     map[string]*Winner
-	Vendors     []string
-	Classes     []string
-	VendorSpecs map[string][]PathPrio
-	ErrPaths    map[string]bool // Spec-named files that must be reported
-	Conflicts   map[string]bool // files taking part in a same-priority conflict
-	Shape       string
+	Devices                                                                                    map[string]*Winner
+	Vendors                                                                                    []string
+	Classes                                                                                    []string
+	VendorSpecs                                                                                map[string][]PathPrio
+	ErrPaths                                                                                   map[string]bool // Spec-named files that must be reported
+	Conflicts                                                                                  map[string]bool // files taking part in a same-priority conflict
+	Shape                                                                                      string
 	HasShadow, HasConflictTop, HasConflictBelow, HasRepeat, HasMissing, HasInvalid, HasIgnored bool
 }
 
